@@ -6,7 +6,9 @@ from checks.common import CheckRun
 EXPLANATION = (
     "P tier (unbounded): exceptional postconditions on the real ProgramDiagnostics.error (raises iff raise_errors, "
     "else counts the error so has_errors() holds), SymbolTable.define (raises iff the name is bound in THIS scope, "
-    "otherwise binds exactly that name) and SymbolTable.lookup (innermost binding; recursion by contract); in both pipeline drivers "
+    "otherwise binds exactly that name) and SymbolTable.lookup (innermost binding; recursion by contract); the analyser's rules for declarations, assignments, calls, "
+    "loops, memory writes (one error per violated rule: one write per cell through every scope and loop, type contradiction, latch arguments) and every leaf of infer_expr_type; "
+    "the lowering's refusal of a cell written again through a call or an iteration; in both pipeline drivers "
     "(compile_dsl_source, compile_dsl_file) every stage is followed by an abort on recorded errors before any success "
     "return (AST control dependence). B tier "
     "(bounded): for each documented static rule a minimal violating construct is embedded at top level, in a called "
@@ -17,12 +19,12 @@ EXPLANATION = (
 
 def run(tier):
     cr = CheckRun("C14", tier, "other", EXPLANATION, "DESIGN §4 C14")
-    cr.contracts(["contracts.c14", "contracts.c14b"])
+    cr.contracts(["contracts.c14", "contracts.c14b", "contracts.c14c", "contracts.c05b"])
     from pyvc import guards
     stages = ["parse", "visit", "lower_program", "plan_layout", "emit_from_plan"]
     for q in ("dsl_compiler/cli.py::compile_dsl_source", "compile.py::compile_dsl_file"):
         cr.ext_obligations.append(guards.stage_guards(q, stages))
     progs = gen.c14_scope(tier)
     cr.bounded_check(run_reject_scope, "ill-formed-embeddings", progs, gen.c14_accepted_hosts(),
-                     f"{len(progs)} programs = 22 rules x violating snippets x embeddings", cr.known)
+                     f"{len(progs)} programs = 22 rules x violating snippets x embeddings; {len(gen.c14_accepted_hosts())} accepted controls", cr.known)
     return cr.finish()
